@@ -125,6 +125,9 @@ pub fn prefixes(tier: Tier) -> Vec<(&'static str, Vec<u16>)> {
 
 pub fn run(ctx: &Ctx) -> i32 {
     if let Some(v) = &ctx.replay {
+        if let Some(code) = replay_fuzz(P, v) {
+            return code;
+        }
         return replay_step(ctx, P, v);
     }
     let tier = ctx.tier;
@@ -191,6 +194,9 @@ pub fn run(ctx: &Ctx) -> i32 {
     }
     .run();
     stats.exhaustive_subspaces.insert("first words".into(), 65536);
+    if tier == Tier::Thorough {
+        fuzz_campaign(ctx, "fuzz_step", 8, 400_000, 64, &mut stats);
+    }
     stats.exhaustive_subspaces.insert("second words per multi-word prefix class".into(), 65536 * prefixes(tier).iter().map(|p| p.1.len() as u64).sum::<u64>());
     stats.exhaustive_subspaces.insert("third words of 0100/0140 78r0".into(), 65536 * 7);
     let mut extra = Map::new();
